@@ -13,6 +13,8 @@ Driver for C03. Input lines (fields separated by blanks), written by
   mut  <orighex> <off> <xorhex> <verdict>   ParseBundle on orig with xorhex xor-ed in at byte off
   direct <name> <hex> <verdict>        hand-made encodings
   adversarial <hex> <off> <xorhex> <verdict> <verdict-mutated>   crafted payload, one bit of its length flipped
+  after <mutatedhex> <verdict-mutated> <pristinehex> <reserialisedhex|err|panic> <verdict-pristine>
+       directly after a failed parse: the known-good object serialised again, its encoding parsed again
 
   verdict = accept | crc | other | panic
 
@@ -22,6 +24,9 @@ Spec verdicts (`specfail <class>`), all judged with the independent delimiter an
   crc16-not-x25 / crc32-not-castagnoli         library value ≠ bit-serial definition
   created-primary-without-crc                   a created primary block has CRC type 0 / no CRC item
   serialised-crc-mismatch                       the serialiser wrote a value ≠ CRC of the block with zeroed field
+  serialised-crc-wrong                          the same, for a good bundle serialised directly after a failed parse
+  valid-crc-rejected                            "invalid CRC value" for a generated bundle whose CRCs all match the Spec
+  valid-crc-rejected-after-failed-parse         the same, directly after a failed parse
   accepted-crc-mismatch                         Go accepted although a block's CRC does not match its received bytes
   accepted-crc-over-reencoded-head              the same, and the block has a non-shortest array / CRC item head
   accepted-crc-declared-but-absent              Go accepted a block with CRC type ≠ 0 that carries no (known) CRC
@@ -181,6 +186,7 @@ def handle (st : St) (line : String) : St × String :=
         let sts := statuses bl
         if sts.any isBad then (st', s!"specfail serialised-crc-mismatch statuses={sts.map showStatus}")
         else if !oi.prot then (st', s!"skip generated-bundle-not-fully-protected")
+        else if go == "crc" then (st', s!"specfail valid-crc-rejected statuses={sts.map showStatus}")
         else if go != "accept" then (st', s!"diff generated-bundle-rejected go={go} model={showVerdict (parseBundleWith crcCalcFast bs)}")
         else (st', judgeParsed go bs (fun _ => none) none)
     | none => (st, "skip parse")
@@ -222,6 +228,30 @@ def handle (st : St) (line : String) : St × String :=
       if showVerdict m1 == go && showVerdict m2 == goM then (st, s!"ok adversarial {go} {goM}")
       else (st, s!"diff adversarial model={showVerdict m1},{showVerdict m2} go={go},{goM}")
     | _, _, _ => (st, "skip parse")
+  | ["after", m, vm, p, rs, vp] =>
+    match parseHex m, parseHex p with
+    | some _, some pb =>
+      match delimit pb with
+      | none => (st, "skip pristine-undelimitable")
+      | some bl =>
+        if !fullyProtected bl then (st, "skip pristine-not-fully-protected")
+        else if vm == "accept" then (st, "skip mutated-was-accepted")
+        else if rs == "err" || rs == "panic" then (st, s!"specfail serialised-crc-wrong serialiser={rs}")
+        else
+          match parseHex rs with
+          | none => (st, "skip parse")
+          | some rb =>
+            match delimit rb with
+            | none => (st, "specfail serialised-crc-wrong reserialised-undelimitable")
+            | some rbl =>
+              let sts := statuses rbl
+              if !fullyProtected rbl then (st, s!"specfail serialised-crc-wrong statuses={sts.map showStatus}")
+              else if vp == "crc" then (st, "specfail valid-crc-rejected-after-failed-parse")
+              else if vp == "panic" then (st, "specfail panic-in-parser")
+              else if vp != "accept" then (st, s!"diff pristine-rejected-after-failed-parse go={vp}")
+              else if rb != pb then (st, "diff reserialised-differs")
+              else (st, "ok after")
+    | _, _ => (st, "skip parse")
   | ["direct", _, h, go] =>
     match parseHex h with
     | some bs => (st, judgeParsed go bs (fun _ => none) none)
